@@ -341,7 +341,9 @@ class HdlcFrameReader(MeterReaderBase[HdlcFrame]):
                 )
                 frames_received.append(cast(HdlcFrame, self._frame))
                 self._start_frame()
-                self._buffer.trim_buffer_to_current_position()
+
+        # release consumed bytes
+        self._buffer.trim_buffer_to_current_position()
 
         return frames_received
 
